@@ -271,7 +271,7 @@ pub fn run(rng: &mut Rng, out: &mut Out, tier: &str) {
         constraint_case(&mut r, out);
     }
     // Matcher with illegal calls: sessions replayed on the model
-    let cfg = crate::c01::SessionCfg { steps: 6, extra_vocab: 20, check_all_tokens: false };
+    let cfg = crate::c01::SessionCfg { steps: 6, extra_vocab: 20, check_all_tokens: false, derived_vocab: false };
     for i in 0..n / 2 {
         let mut r = rng.fork(0x5000_0000 + i as u64);
         crate::c01::session_case(&mut r, out, &cfg, "C18");
